@@ -4,6 +4,8 @@ go 1.23.5
 
 replace github.com/sunriselayer/sunrise => /repo
 
+replace github.com/sunriselayer/sunrise/x/da/erasurecoding => /repo/x/da/erasurecoding
+
 replace (
 	github.com/cosmos/cosmos-sdk => github.com/cosmos/cosmos-sdk v0.52.0-rc.2.0.20250127135924-c9d68e4322bb
 	github.com/cosmos/ibc-go/v9 => github.com/cosmos/ibc-go/v9 v9.0.0-20250124215514-f0469954dfc7
@@ -35,6 +37,7 @@ require (
 	github.com/cosmos/ibc-go/v9 v9.0.0-20241217101236-efca310eb993
 	github.com/gogo/protobuf v1.3.2
 	github.com/sunriselayer/sunrise v0.0.0-00010101000000-000000000000
+	github.com/sunriselayer/sunrise/x/da/erasurecoding v0.0.0-00010101000000-000000000000
 	google.golang.org/protobuf v1.36.4
 )
 
@@ -149,6 +152,7 @@ require (
 	github.com/jmespath/go-jmespath v0.4.0 // indirect
 	github.com/klauspost/compress v1.17.11 // indirect
 	github.com/klauspost/cpuid/v2 v2.2.9 // indirect
+	github.com/klauspost/reedsolomon v1.12.3 // indirect
 	github.com/kr/pretty v0.3.1 // indirect
 	github.com/kr/text v0.2.0 // indirect
 	github.com/lib/pq v1.10.9 // indirect
